@@ -237,6 +237,17 @@ def fixed_probes():
                ("Box<Vec<u8>>", "bumpalo::boxed::Box<'static, bumpalo::collections::Vec<'static, u8>>"), ("IntoIter<Vec<u8>>", "bumpalo::collections::vec::IntoIter<'static, bumpalo::collections::Vec<'static, u8>>"),
                ("Api2Box", "allocator_api2::boxed::Box<u32, &'static Bump>"), ("Bump<8> ref", "&'static Bump<8>")]
     sync_yes = [("Box<u32>", "bumpalo::boxed::Box<'static, u32>"), ("IntoIter<u8>", "bumpalo::collections::vec::IntoIter<'static, u8>")]
+    # element-type bounds of the hand-written auto-trait impls: a Send-but-not-Sync element (Cell, or a Bump) must
+    # not make the owner Sync, a not-Send element (Rc) must not make it Send
+    CELL, RC = "std::cell::Cell<u8>", "std::rc::Rc<u8>"
+    for owner, ty in [("IntoIter", "bumpalo::collections::vec::IntoIter<'static, %s>"), ("vec::Drain", "bumpalo::collections::vec::Drain<'static, 'static, %s>"), ("Box", "bumpalo::boxed::Box<'static, %s>"),
+                      ("Box<[T]>", "bumpalo::boxed::Box<'static, [%s]>"), ("Pin<Box>", "std::pin::Pin<bumpalo::boxed::Box<'static, %s>>")]:
+        P.append(("notsync_%s_of_Cell" % owner, False, "trait", ["pub fn NAME() {", "    assert_sync::<%s>();" % (ty % CELL), "}"], "%s<Cell<u8>> must not be Sync" % owner))
+        P.append(("notsync_%s_of_Bump" % owner, False, "trait", ["pub fn NAME() {", "    assert_sync::<%s>();" % (ty % "Bump"), "}"], "%s<Bump> must not be Sync" % owner))
+        P.append(("notsend_%s_of_Rc" % owner, False, "trait", ["pub fn NAME() {", "    assert_send::<%s>();" % (ty % RC), "}"], "%s<Rc<u8>> must not be Send" % owner))
+        P.append(("send_%s_of_Cell" % owner, True, "trait", ["pub fn NAME() {", "    assert_send::<%s>();" % (ty % CELL), "}"], "%s<Cell<u8>>: Send" % owner))
+    P.append(("share_via_into_iter_of_bumps", False, "trait", ["pub fn NAME() {", "    let outer = Bump::new();", "    let mut v = bumpalo::collections::Vec::new_in(&outer);", "    v.push(Bump::new());", "    let it = v.into_iter();", "    std::thread::scope(|s| {", "        s.spawn(|| { let _ = it.as_slice()[0].alloc(1u8); });", "        let _ = it.as_slice()[0].alloc(2u8);", "    });", "}"],
+              "an IntoIter over arenas shared by reference with another thread (both allocate in the same arena)"))
     sync_no = [("Bump", "Bump"), ("Bump<16>", "Bump<16>"), ("Vec<u8>", "bumpalo::collections::Vec<'static, u8>"), ("String", "bumpalo::collections::String<'static>"), ("ChunkRawIter", "bumpalo::ChunkRawIter<'static>"), ("ChunkIter", "bumpalo::ChunkIter<'static>")]
     for (nm, ty) in send_yes:
         P.append(("send_%s" % nm, True, "trait", ["pub fn NAME() {", "    assert_send::<%s>();" % ty, "}"], "%s: Send" % nm))
